@@ -20,7 +20,7 @@ RULE = ("E1 over edit operators: for each base file (valid BF3 files with 0..3 c
         "in 0x00) every single structured edit at every applicable entry position and every combination of <= d edits (d=2 quick, 3 thorough) "
         "is applied to the reference AST (addresses, stored/declared lengths with and without the bytes present, tag list incl. duplicates and "
         "over/under-long tag lengths, description/entry/directory sizes, sentinel, entry order, MAC index, swapped MACs, each MAC wrong in exactly one byte at every byte position, trailing and missing "
-        "bytes, signature), MACs recomputed, serialised, and read by the real reader. Oracle: accept <=> independent validator accepts, and "
+        "bytes, signature), MACs recomputed, serialised behind a BF3 signature and behind a BEC2 header (singles, pairs for the first file), and read by the real readers. Oracle: accept <=> independent validator accepts, and "
         "equal content on accept. Distinct = distinct resulting binaries; non-trivial = the edit changed the binary.")
 ASSUMPTIONS = [
     "length edits 'with the bytes present' are applied to plain components only (a ciphertext of non-block length is not covered by the statement)",
@@ -319,6 +319,10 @@ def cases(ctx):
                 pool = ops
             for combo in combinations(range(len(pool)), k):
                 yield ("edit", fi, tuple(pool[j] for j in combo))
+        # the same body behind a BEC2 header (read through Bec2File.read_file): every single edit, and every pair for the first file
+        for k in range(0, 2 if fi else 3):
+            for combo in combinations(range(len(ops)), k):
+                yield ("edit", fi, tuple(ops[j] for j in combo), "bec2")
         # a MAC that is wrong in exactly one byte, every byte position of both MACs of every entry (singles only)
         for i in range(len(comps)):
             for name, _ in MAC_OPS:
@@ -367,10 +371,21 @@ def emit_with_post(ast, key, header_len=5):
 
 
 def run_case(ctx, case):
-    _, fi, edits = case
+    fi, edits = case[1], case[2]
+    framing = case[3] if len(case) > 3 else "bf3"
     key, comps = base_files(ctx)[fi]
-    ast = L.build(comps, 5, key)
-    base = L.BF3_SIG + L.emit(ast, key)
+    if framing == "bec2":
+        from ..ref import authblock as AB
+        from bec2format.bec2file import Bec2File, SoftwareCustKeyEncryptor
+        ckey = ctx.sym("c05-ckey")
+        header = AB.header([(1, AB.container_wrap(ckey, AB.cust_payload(key)))])
+        if any(n.startswith("sig-") for n, _ in edits):
+            return Outcome("signature-edit-is-bf3-only", False)
+    else:
+        header = L.BF3_SIG
+    hlen = len(header)
+    ast = L.build(comps, hlen, key)
+    base = header + L.emit(ast, key)
     ast = copy.deepcopy(ast)
     info = {}
     for name, i in edits:
@@ -379,27 +394,30 @@ def run_case(ctx, case):
         except (IndexError, KeyError, ValueError):
             return Outcome("edit-not-applicable-after-earlier-edit", False)
     try:
-        binary = ast.get("sig", L.BF3_SIG) + emit_with_post(ast, key)
+        binary = (ast.get("sig", L.BF3_SIG) if framing == "bf3" else header) + emit_with_post(ast, key, hlen)
     except (OverflowError, ValueError):
         return Outcome("edit-not-representable", False)
     changed = binary != base
     # independent decision
     try:
-        if binary[:5] != L.BF3_SIG:
+        if framing == "bf3" and binary[:5] != L.BF3_SIG:
             raise L.Reject("signature")
-        exp = L.validate(binary, 5, key)
+        exp = L.validate(binary, hlen, key)
         exp_accept = True
     except L.Reject as r:
         exp = str(r)
         exp_accept = False
     text = L.render_text([], binary)
     try:
-        got = Bf3File.read_file(io.StringIO(text), True, key)
+        if framing == "bf3":
+            got = Bf3File.read_file(io.StringIO(text), True, key)
+        else:
+            got = Bec2File.read_file(io.StringIO(text), [SoftwareCustKeyEncryptor(ckey)]).bf3file
         accept = True
     except Exception as e:
         got = e
         accept = False
-    o = Outcome("accept" if accept else "reject", changed, key=binary)
+    o = Outcome(("accept" if accept else "reject") + ("-bec2" if framing == "bec2" else ""), changed, key=(framing, binary))
     names = "+".join("%s@%d" % (n, i) if i >= 0 else n for n, i in edits) or "unedited"
     if accept and not exp_accept:
         o.cls = "accepts-malformed"
